@@ -230,7 +230,7 @@ func (g *irGen) ty(depth int) ast.Type {
 			if g.r.chance(50) {
 				t.Disjunction.DiscriminatorMapping = map[string]string{}
 				for _, b := range branches {
-					if b.IsRef() {
+					if b.IsRef() && b.Ref != nil {
 						t.Disjunction.DiscriminatorMapping[pick(g.r, []string{"k1", "k2", "k3"})] = b.Ref.ReferredType
 					}
 				}
